@@ -720,7 +720,10 @@ def oracle_setters(R, sp, start, ops):
     except Exception:
         return [], ['start-rejected']
     fails, trace = [], []
+    clean = start[0] == 'value' or sp.rx.fullmatch(start[1]) is not None   # every raw text given so far was a lexeme
     for i, op in enumerate(ops):
+        if op[0] == 'raw_text' and sp.rx.fullmatch(op[1]) is None:
+            clean = False
         before = sp.state(tok)
         try:
             apply_op(sp, tok, op)
@@ -751,6 +754,17 @@ def oracle_setters(R, sp, start, ops):
                 fails.append(('setter-' + op[0], f'text-and-value-disagree@{i}'))
         except Exception as e:
             fails.append(('setter-' + op[0], f'own-text-unparseable@{i}:' + exc_tag(e)))
+        # ... and the real lexer reads that text as exactly one token of the class, with the same meaning
+        if op[0] == 'raw_text' or not clean:
+            continue    # a raw text is taken verbatim; from lexemes on, what value / indent assignments WRITE must be a lexeme
+        try:
+            t3 = R.parser.parse_token(tok.raw_text, sp.T)
+            a = (t3.indent, t3.value) if sp.key == 'bc' else t3.value
+            b = (tok.indent, tok.value) if sp.key == 'bc' else tok.value
+            if not sp.veq(a, b):
+                fails.append(('setter-' + op[0], f'lexer-and-value-disagree@{i}'))
+        except Exception as e:
+            fails.append(('setter-' + op[0], f'own-text-is-not-a-lexeme@{i}:' + type(e).__name__))
     return fails, trace
 
 
